@@ -29,7 +29,7 @@ func tlsConfigField(w *World, name string) *types.Var {
 }
 
 func checkC05(w *World, r *Report) {
-	r.Explanation = "Decides the configuration-to-TLS dataflow that peer authentication rests on: (R05.1) certificate verification can be disabled only by ClientConfig.GetTlsConfig under the user's insecure option and by the documented stdio+tls exception; no verification callback overrides exist; (R05.2) whenever the server's TLS configuration is returned successfully with requireClientCert set, ClientAuth=RequireAndVerifyClientCert has been stored, and the configuration is never dereferenced on the error path; (R05.3) a configured CA is installed as both RootCAs and ClientCAs; (R05.4) the StartTLS ServerName is the upstream's host name without port at every call site; (R05.5) every tls.Client/Dial/Server/Listen and every TLSConfig/TLSClientConfig field takes its configuration from the certificate manager; (R05.6) both ends of a password-protected UDP endpoint derive the key with identical constants, constructor and salt scheme and pass the derived cipher on. Not decided: crypto/x509 chain validation, expiry, kcp's cipher."
+	r.Explanation = "Decides the configuration-to-TLS dataflow that peer authentication rests on: (R05.1) certificate verification can be disabled only by ClientConfig.GetTlsConfig under the user's insecure option and by the documented stdio+tls exception; no verification callback overrides exist; (R05.2) whenever the server's TLS configuration is returned successfully with requireClientCert set, ClientAuth=RequireAndVerifyClientCert has been stored, and the configuration is never dereferenced on the error path; (R05.3) a configured CA is installed as both RootCAs and ClientCAs; (R05.4) the StartTLS ServerName is the upstream's host name without port at every call site; (R05.5) every tls.Client/Dial/Server/Listen and every TLSConfig/TLSClientConfig field takes its configuration from the certificate manager; (R05.8) the server handshake returns a connection that is not the result of its TLS handshake only on paths where the client-certificate requirement (a flag derived from tls.Config.ClientAuth) is known absent or the carrier is already secure — a client cannot dodge requireClientCert by not asking for StartTLS; (R05.9) every tls.Dial whose address argument is a resolved address (net.Addr.String()) is preceded on every path by a store of the upstream URL's Hostname() into the configuration's ServerName — otherwise crypto/tls checks the certificate against the IP address; (R05.6) both ends of a password-protected UDP endpoint derive the key with identical constants, constructor and salt scheme and pass the derived cipher on. Not decided: crypto/x509 chain validation, expiry, kcp's cipher."
 	r.NotDecided = []string{"certificate chain validation (crypto/x509)", "expiry", "kcp cipher behaviour", "pbkdf2 key length 64 is not an AES key size: password-protected UDP fails closed on both ends (observed, outside the property)"}
 	r.Trusted = []string{"crypto/tls verifies the peer unless InsecureSkipVerify / ClientAuth say otherwise", "(*url.URL).Hostname() strips the port"}
 	r.Rule("R05.1", "who may disable certificate verification (exactly the two allowed writers)", 2)
@@ -38,6 +38,8 @@ func checkC05(w *World, r *Report) {
 	r.Rule("R05.4", "StartTLS ServerName is the port-less host at every call site", 6)
 	r.Rule("R05.5", "every TLS primitive takes its config from the manager", 6)
 	r.Rule("R05.6", "shared-secret key derivation agrees on both ends", 1)
+	r.Rule("R05.8", "a server whose TLS configuration demands client certificates admits no clear-text session", 1)
+	r.Rule("R05.9", "a TLS dial to a resolved address verifies the certificate against the configured host name", 1)
 	r.Rule("R05.7", "GetTlsConfig hands out a fresh configuration (callers mutate it)", 3)
 
 	c05WhoDisables(w, r)
@@ -47,6 +49,8 @@ func checkC05(w *World, r *Report) {
 	c05ConfigProvenance(w, r)
 	c05SharedSecret(w, r)
 	c05FreshConfig(w, r, "R05.7")
+	c05NoPlainAdmission(w, r)
+	c05DialServerName(w, r)
 }
 
 func c05WhoDisables(w *World, r *Report) {
@@ -352,6 +356,13 @@ func c05ServerName(w *World, r *Report) {
 				if fv := fieldVarOf(fa2); fv != nil && recvIs(fa2, cc) {
 					hostField = fv
 					r.Hold("R05.4", key, w.Pos(st.Pos()), "ServerName is the connection's host field "+fv.Name())
+					return
+				}
+			}
+			// a carrier that dials TLS itself takes the name straight from the upstream URL (port-less)
+			for _, root := range provInter(st.Val, 0) {
+				if call, ok := root.(*ssa.Call); ok && isMethod(sCallee(call), "net/url", "URL", "Hostname") {
+					r.Hold("R05.4", key, w.Pos(st.Pos()), "ServerName is (*url.URL).Hostname() of the configured address — no port")
 					return
 				}
 			}
@@ -809,5 +820,263 @@ func c05FreshConfig(w *World, r *Report, rule string) {
 			continue
 		}
 		r.Check(bad == "", rule, key, w.Pos(m.Pos()), fmt.Sprintf("every call builds a fresh tls.Config (callers mutate the result at %d site(s))", mutated), bad)
+	}
+}
+
+// c05NoPlainAdmission: R05.8 — requireClientCert is enforced by crypto/tls during a TLS handshake only.
+// On a carrier that is not already TLS the session handshake must therefore refuse to return the plain
+// connection when the manager's configuration demands client certificates.
+func c05NoPlainAdmission(w *World, r *Report) {
+	key := "method:(*socketace.ServerConnection).upgrade|plain-admission"
+	scNamed := w.Named("internal/socketace", "ServerConnection")
+	newSC := w.SSAFunc(w.Func("internal/socketace", "NewServerConnection"))
+	clientAuth := tlsConfigField(w, "ClientAuth")
+	if scNamed == nil || newSC == nil || clientAuth == nil {
+		r.Undecided("R05.8", key, "-", "anchor unresolved: ServerConnection / NewServerConnection / tls.Config.ClientAuth")
+		return
+	}
+	// the function of the handshake cone that returns the established connection: (conn, error) results, returns a tls.Server-derived value somewhere
+	var up *ssa.Function
+	for _, f := range staticCone(newSC, 3) {
+		if f.Pkg == nil || f.Pkg.Pkg.Path() != modPath+"/internal/socketace" {
+			continue
+		}
+		for _, c := range callsIn(f) {
+			if isPkgFunc(sCallee(c), "crypto/tls", "Server") && f.Signature.Results().Len() == 2 {
+				up = f
+			}
+		}
+	}
+	if up == nil {
+		r.Undecided("R05.8", key, "-", "the server's StartTLS step (tls.Server in NewServerConnection's cone) was not found")
+		return
+	}
+	// flags of ServerConnection derived from ClientAuth
+	derivesFromClientAuth := func(v ssa.Value) bool {
+		seen := map[ssa.Value]bool{}
+		var walk func(v ssa.Value, d int) bool
+		walk = func(v ssa.Value, d int) bool {
+			if v == nil || seen[v] || d > 8 {
+				return false
+			}
+			seen[v] = true
+			switch x := v.(type) {
+			case *ssa.UnOp:
+				if fa := asFieldAddr(x.X); fa != nil && fieldVarOf(fa) == clientAuth {
+					return true
+				}
+				return walk(x.X, d+1)
+			case *ssa.BinOp:
+				return walk(x.X, d+1) || walk(x.Y, d+1)
+			case *ssa.Phi:
+				for _, e := range x.Edges {
+					if walk(e, d+1) {
+						return true
+					}
+				}
+			case *ssa.Convert:
+				return walk(x.X, d+1)
+			case *ssa.ChangeType:
+				return walk(x.X, d+1)
+			case *ssa.Field:
+				return x.X != nil && walk(x.X, d+1)
+			case *ssa.Call:
+				// helper returning the requirement
+				if callee := x.Call.StaticCallee(); callee != nil && inModule(callee) {
+					for _, b := range callee.Blocks {
+						if ret, ok := b.Instrs[len(b.Instrs)-1].(*ssa.Return); ok {
+							for _, res := range ret.Results {
+								if walk(res, d+1) {
+									return true
+								}
+							}
+						}
+					}
+				}
+			}
+			return false
+		}
+		return walk(v, 0)
+	}
+	reqFields := map[*types.Var]bool{}
+	for fn := range allModuleFuncs(w, w.SSA()) {
+		allInstrs(fn, func(in ssa.Instruction) {
+			st, ok := in.(*ssa.Store)
+			if !ok {
+				return
+			}
+			fa := asFieldAddr(st.Addr)
+			if fa == nil {
+				return
+			}
+			fv := fieldVarOf(fa)
+			if fv == nil || fieldOwnerNamed(scNamed, fv) == false {
+				return
+			}
+			if derivesFromClientAuth(st.Val) {
+				reqFields[fv] = true
+			}
+		})
+	}
+	secureF := fieldOf(scNamed, "secure")
+	bad := ""
+	nplain, ntls := 0, 0
+	okp := enumPaths(up, nil, nil, nil, func(e pathExit) {
+		ret, isRet := e.Last.(*ssa.Return)
+		if !isRet || len(ret.Results) != 2 || !isConstNil(e.State.Resolve(ret.Results[1])) {
+			return
+		}
+		conn := e.State.Resolve(ret.Results[0])
+		if isConstNil(conn) {
+			return
+		}
+		viaTLS := false
+		for _, root := range rootsOfNoTLS(w, conn) {
+			if c, ok := root.(*ssa.Call); ok && isPkgFunc(sCallee(c), "crypto/tls", "Server") {
+				viaTLS = true
+			}
+		}
+		if viaTLS {
+			ntls++
+			return
+		}
+		nplain++
+		justified := false
+		for v, t := range e.State.Facts {
+			for f := range reqFields {
+				if isLoadOfField(v, f) && !t {
+					justified = true
+				}
+			}
+			if secureF != nil && isLoadOfField(v, secureF) && t {
+				justified = true
+			}
+			// the requirement tested directly on the configuration
+			if derivesFromClientAuth(v) && !t {
+				justified = true
+			}
+		}
+		if !justified && bad == "" {
+			if len(reqFields) == 0 {
+				bad = fmt.Sprintf("%s: the plain connection is returned as an established session and nothing in the server handshake consults tls.Config.ClientAuth: with requireClientCert set, a client that simply does not ask for StartTLS is admitted in clear text without presenting any certificate", w.Pos(ret.Pos()))
+			} else {
+				bad = fmt.Sprintf("%s: the plain connection is returned on a path where the client-certificate requirement is not known to be absent (and the carrier is not known secure)", w.Pos(ret.Pos()))
+			}
+		}
+	})
+	if !okp {
+		r.Undecided("R05.8", key, w.Pos(up.Pos()), "path budget exceeded")
+		return
+	}
+	r.Check(bad == "" && nplain+ntls > 0, "R05.8", key, w.Pos(up.Pos()), fmt.Sprintf("%d plain and %d TLS success return(s); every plain one is on a path where the requirement flag is false or the carrier already secure", nplain, ntls), bad)
+}
+
+func fieldOwnerNamed(n *types.Named, fv *types.Var) bool {
+	st, ok := n.Underlying().(*types.Struct)
+	if !ok {
+		return false
+	}
+	for i := 0; i < st.NumFields(); i++ {
+		if st.Field(i) == fv {
+			return true
+		}
+	}
+	return false
+}
+
+// c05DialServerName: R05.9 — tls.Dial derives the name to verify from its address argument unless
+// Config.ServerName is set. When the address is the RESOLVED one (net.Addr.String(): an IP), the
+// configured host name must be stored into ServerName on every path to the dial.
+func c05DialServerName(w *World, r *Report) {
+	serverName := tlsConfigField(w, "ServerName")
+	n := 0
+	for fn := range allModuleFuncs(w, w.SSA()) {
+		for _, c := range callsIn(fn) {
+			f := sCallee(c)
+			var addrArg, cfg ssa.Value
+			switch {
+			case isPkgFunc(f, "crypto/tls", "Dial"):
+				addrArg, cfg = c.Common().Args[1], c.Common().Args[2]
+			case isPkgFunc(f, "crypto/tls", "DialWithDialer"):
+				addrArg, cfg = c.Common().Args[2], c.Common().Args[3]
+			default:
+				continue
+			}
+			n++
+			key := "call:tls.Dial@" + ssaFuncKey(fn)
+			pos := w.Pos(c.Pos())
+			resolved := false
+			fromURL := false
+			for _, root := range provenance(addrArg, provOpts{}) {
+				if call, ok := root.(*ssa.Call); ok {
+					if call.Call.IsInvoke() && call.Call.Method.Name() == "String" {
+						resolved = true // net.Addr.String(): the resolved numeric address
+					}
+					if cf := sCallee(call); cf != nil && cf.Pkg() != nil && cf.Pkg().Path() == "net" && strings.HasPrefix(cf.Name(), "Resolve") {
+						resolved = true
+					}
+					if cf := sCallee(call); cf != nil && cf.Pkg() != nil && cf.Pkg().Path() == "net/url" {
+						fromURL = true
+					}
+				}
+				if u, ok := root.(*ssa.UnOp); ok {
+					if fa := asFieldAddr(u.X); fa != nil {
+						if fv := fieldVarOf(fa); fv != nil && fv.Pkg() != nil && fv.Pkg().Path() == "net/url" && fv.Name() == "Host" {
+							fromURL = true
+						}
+					}
+				}
+			}
+			if fromURL && !resolved {
+				r.Hold("R05.9", key, pos, "dials the configured host:port itself; crypto/tls verifies the certificate against that host")
+				continue
+			}
+			isNameStore := func(in ssa.Instruction) bool {
+				st, ok := in.(*ssa.Store)
+				if !ok {
+					return false
+				}
+				fa := asFieldAddr(st.Addr)
+				if fa == nil || fieldVarOf(fa) != serverName {
+					return false
+				}
+				for _, root := range provInter(st.Val, 0) {
+					if call, ok := root.(*ssa.Call); ok && isMethod(sCallee(call), "net/url", "URL", "Hostname") {
+						return true
+					}
+				}
+				return false
+			}
+			bad := ""
+			npaths := 0
+			okp := enumPaths(fn, nil, isNameStore, func(in ssa.Instruction) bool { return in == c.(ssa.Instruction) }, func(e pathExit) {
+				if e.Stop == nil {
+					return
+				}
+				npaths++
+				set := false
+				for _, ev := range e.State.Events {
+					st := ev.(*ssa.Store)
+					for _, b := range provenance(st.Addr.(*ssa.FieldAddr).X, provOpts{}) {
+						for _, cr := range provenance(cfg, provOpts{}) {
+							if b == cr {
+								set = true
+							}
+						}
+					}
+				}
+				if !set {
+					bad = "the dialled address is the resolved one (an IP) and Config.ServerName is not set from the upstream's Hostname() on this path: crypto/tls verifies the certificate against the IP address — a certificate matching the configured host name is refused and one that merely carries the IP is accepted"
+				}
+			})
+			if !okp {
+				r.Undecided("R05.9", key, pos, "path budget exceeded")
+				continue
+			}
+			r.Check(bad == "" && npaths > 0, "R05.9", key, pos, fmt.Sprintf("ServerName is set from the upstream's Hostname() on all %d path(s) to the dial", npaths), bad)
+		}
+	}
+	if n == 0 {
+		r.Hold("R05.9", "call:tls.Dial", "-", "no tls.Dial in the module (TLS carriers are built by tls.Client / listeners only)")
 	}
 }
